@@ -102,8 +102,9 @@ def w_tables(job):
     if mp:
         lvals = [None] * mp + lvals
         rvals = [None] * mp + rvals[:1] + [None] + rvals[1:]
-    xl = {'x': ['v%d' % i for i in range(len(lvals))]} if job.get('proj') else None
-    xr = {'x': ['w%d' % i for i in range(len(rvals))]} if job.get('proj') else None
+    nanx = job.get('projnan', False)
+    xl = {'x': [None if (nanx and i % 2) else 'v%d' % i for i in range(len(lvals))]} if job.get('proj') else None
+    xr = {'x': [None if (nanx and i % 3 == 0) else 'w%d' % i for i in range(len(rvals))]} if job.get('proj') else None
     L = mkframe(lvals, pres, prefix='l', extra_cols=xl)
     R = mkframe(rvals, pres, prefix='r', extra_cols=xr)
     lkeys, rkeys = L['id'].tolist(), R['id'].tolist()
